@@ -459,6 +459,7 @@ theorem handleSubmoduleLog_co {cfg : Cfg} {m m' : M} {l : L} {b : Bool} (nf : CO
       rcases pend_cases hp with h | ⟨_, h⟩
       · exact h
       · simp [startsWith_false_of_bodyHead h.2 nonBody_submoduleLog] at ht
+    rw [pendingDiffName_co nf.1 ((flushMP_modeInfo m).trans inv.mode), handleAdditionalCases_flushMP] at e
     exact handleAdditionalCases_co nf inv hp0 rfl e
 
 theorem handleSubmoduleShort_co {cfg : Cfg} {m m' : M} {l : L} {b : Bool} (nf : CONormal cfg) (inv : COInv m)
